@@ -61,6 +61,15 @@ def gen_steps(rng, specs, nclients, n, client_ops=True, late_start=False, snoope
     steps = []
     for _ in range(n):
         r = rng.random()
+        if r < 0.05:
+            # a flag changed while its group is hidden must still take effect when the group comes back
+            d, v = rng.choice(vecs)
+            gname = [g["name"] for s in specs if s["name"] == d for g in G.effective_groups(s).values()
+                     if any(x["name"] == v["name"] for x in g["vectors"].values())][0]
+            steps += [{"op": "d_genable", "dev": d, "group": gname, "value": False},
+                      {"op": "d_venable", "dev": d, "vec": v["name"], "value": rng.random() < 0.5},
+                      {"op": "d_genable", "dev": d, "group": gname, "value": True}]
+            continue
         if r < 0.28:
             d, v, e = rng.choice(els)
             steps.append({"op": rng.choice(["d_assign", "d_assign", "d_set_value"]), "dev": d, "vec": v["name"], "el": e["name"],
